@@ -29,9 +29,9 @@ class Boom(Exception):
 
 def _rand_case(rng):
     n = rng.randint(2, 5)
-    callers = [{"key": rng.choice([0, 0, 0, 1]), "yields": rng.randint(0, 3), "out": rng.choice(["ret", "ret", "raise", "ret0"]),
+    callers = [{"key": rng.choice([0, 0, 0, 1]), "yields": rng.randint(0, 3), "out": rng.choice(["ret", "ret", "ret", "raise", "raise", "ret0", "cancel_self"]),
                 "form": rng.choice(["pos", "pos", "kw"])} for _ in range(n)]      # ret0: the body returns the falsy value 0; form: f(k) or f(k=k)
-    return {"kind": rng.choice(["cache", "cache", "cache_lock", "early", "soft"]), "callers": callers,
+    return {"kind": rng.choice(["cache", "cache", "cache_lock", "early", "soft", "method", "method"]), "callers": callers,
             "extra": rng.random() < 0.5, "cancel": rng.choice([None, 0, 1, n - 1]), "bursts": sorted(rng.sample(range(1, 12), rng.choice([0, 0, 1, 2]))),
             "schedule": [rng.randrange(12) for _ in range(30)]}
 
@@ -108,11 +108,25 @@ def _run(case):
                     return 100 + c
                 if specs[c]["out"] == "ret0":
                     return 0
+                if specs[c]["out"] == "cancel_self":
+                    raise asyncio.CancelledError()     # the execution itself ends cancelled (e.g. inner work it awaited was cancelled)
                 raise Boom(c)
             kind = case["kind"]
             if kind == "cache": f = cache(ttl=100000, key="k:{k}")(body)
             elif kind == "cache_lock": f = cache(ttl=100000, key="k:{k}", lock=True)(body)
             elif kind == "early": f = cache.early(ttl=100000, early_ttl=50000, key="k:{k}")(body)
+            elif kind == "method":
+                # a protected method without an explicit key: the instance is part of the key, two instances are two keys
+                class Svc:
+                    def __init__(self, n): self.n = n
+
+                    @cache(ttl=100000)
+                    async def m(self):
+                        return await body(self.n)
+                objs = [Svc(0), Svc(1)]
+
+                async def f(k, trace=None):      # (the automatic key names every parameter: no extra argument here)
+                    return await objs[k].m()
             else: f = cache.soft(ttl=100000, soft_ttl=50000, key="k:{k}")(body)
 
             async def caller(i):
@@ -163,6 +177,7 @@ def _out(kind, v):
 
 def _spec_out(specs, c):
     o = specs[c]["out"]
+    if o == "cancel_self": return C("Cancelled")
     return _out("ret" if o == "ret0" else o, 100 + c if o == "ret" else 0 if o == "ret0" else c)
 
 
